@@ -211,6 +211,16 @@ def pytorch_stft_frame_computer(
     mod = dft_size_ % 2
     for si, filt in zip(offsets, filters):
         val, consumed, conj, filt_len = zero, 0, False, len(filt)
+        if is_real:
+            # the 0 Hz bin and, for an even DFT size, the Nyquist bin are their own
+            # mirror images: the full spectrum holds them only once
+            if si == 0 and filt_len > 0:
+                edge = (spect[..., :1] * filt[:1]).abs()
+                val = val - (edge.square().sum(1) if use_power else edge.sum(1))
+            ni = half_len - 1 - si
+            if mod == 0 and ni >= 0 and ni < filt_len:
+                edge = (spect[..., half_len - 1 :] * filt[ni : ni + 1]).abs()
+                val = val - (edge.square().sum(1) if use_power else edge.sum(1))
         while consumed < filt_len:
             if conj:
                 seg_len = max(min(si + filt_len - consumed, half_len - 2 + mod) - si, 0)
